@@ -83,6 +83,6 @@ def run(out, tier, rng, work):
                 'of each address holds it, losers behave; handler logs replayed on the Coq model; non-trivial = a contest happened'
                 ' A quarter of the scenarios on FD stacks; address 0 in 10 %.')
     out.assumptions = ['A1-A6 of DESIGN.md section 3', 'settle-time bound (T04.6) not proved; checked by the oracle at horizon = last claim + 4 s']
-    sprop.run_stateful(out, 'C04', tier, rng, work, FILES, lambda r, k: gen_ca.gen_claim(r), oracle, 150, 3000, nontrivial,
+    sprop.run_stateful(out, 'C04', tier, rng, work, FILES, lambda r, k: (gen_ca.gen_late_third(r) if k % 10 == 9 else gen_ca.gen_claim(r)), oracle, 150, 3000, nontrivial,
                        sample=lambda sc, res: dict(cas=[(hex(s['cas'][0]['name']), s['cas'][0]['addr']) for s in sc['stacks']],
                                                    script=sc['script'], final=res.cas))
